@@ -32,6 +32,19 @@ fn main() {
         }
         services.push(b.build());
     }
+    // messages whose encoding is empty: `()` and a unit struct (zero bytes under bincode)
+    let unit = |name: &str, route: &str, ty: &str, codec: &str| {
+        Method::builder().name(name).route_name(route).request_type(ty).response_type(ty).codec_path(format!("anemo::rpc::codec::{codec}")).build()
+    };
+    services.push(
+        Service::builder()
+            .name("Unit")
+            .package("u")
+            .method(unit("ping", "Ping", "()", "BincodeCodec"))
+            .method(unit("ping_json", "PingJson", "()", "JsonCodec"))
+            .method(unit("mark", "Mark", "crate::Marker", "BincodeCodec"))
+            .build(),
+    );
     anemo_build::manual::Builder::new().compile(&services);
     println!("cargo:rerun-if-changed=build.rs");
 }
